@@ -342,8 +342,82 @@ class Analyzer:
         return s
 
 
+def _pattern_test(subject: ast.expr, pat: ast.AST) -> T.Optional[ast.expr]:
+    """The boolean expression a capture-free pattern stands for (None: the pattern always matches); Undecided otherwise."""
+    import copy
+    subj = copy.deepcopy(subject)
+    if isinstance(pat, ast.MatchAs) and pat.pattern is None and pat.name is None:
+        return None
+    if isinstance(pat, ast.MatchClass) and not pat.patterns and not pat.kwd_patterns:
+        return ast.Call(func=ast.Name(id='isinstance', ctx=ast.Load()), args=[subj, pat.cls], keywords=[])
+    if isinstance(pat, ast.MatchValue):
+        return ast.Compare(left=subj, ops=[ast.Eq()], comparators=[pat.value])
+    if isinstance(pat, ast.MatchSingleton):
+        return ast.Compare(left=subj, ops=[ast.Is()], comparators=[ast.Constant(value=pat.value)])
+    if isinstance(pat, ast.MatchOr):
+        subs = [_pattern_test(subject, q) for q in pat.patterns]
+        if any(x is None for x in subs):
+            return None
+        if all(isinstance(q, ast.MatchClass) for q in pat.patterns):
+            return ast.Call(func=ast.Name(id='isinstance', ctx=ast.Load()),
+                            args=[subj, ast.Tuple(elts=[q.cls for q in pat.patterns], ctx=ast.Load())], keywords=[])  # type: ignore[attr-defined]
+        return ast.BoolOp(op=ast.Or(), values=subs)
+    raise Undecided(f'match pattern `{short(pat)}` (captures / sub-patterns) is outside the subset read as an if/elif chain')
+
+
+def desugar_match(fn: ast.AST) -> None:
+    """Normal form, in place: `match <name or attribute chain>:` whose cases are capture-free (class patterns without
+    sub-patterns, `A() | B()`, literal values, `_`, optional guards) is the if/elif/else chain over isinstance / == tests in
+    case order (PEP 634: first matching case wins, the subject is evaluated once; a name or attribute chain has no effect)."""
+    if not any(n.__class__.__name__ == 'Match' for n in ast.walk(fn)):
+        return
+
+    def chain(st: T.Any) -> ast.stmt:
+        if attr_chain(st.subject) is None:
+            raise Undecided(f'match subject `{short(st.subject)}` is not a name / attribute chain')
+        head: T.Optional[ast.If] = None
+        tail: T.Optional[ast.If] = None
+        for case in st.cases:
+            test = _pattern_test(st.subject, case.pattern)
+            if case.guard is not None:
+                test = case.guard if test is None else ast.BoolOp(op=ast.And(), values=[test, case.guard])
+            if test is None:
+                test = ast.Constant(value=True)
+            node = ast.If(test=test, body=case.body, orelse=[])
+            ast.copy_location(node, case.body[0] if case is not st.cases[0] else st)
+            for x in ast.walk(test):
+                if not hasattr(x, 'lineno'):
+                    ast.copy_location(x, node)
+            if isinstance(test, ast.Constant) and tail is not None:
+                tail.orelse = case.body      # `case _:` is the else branch
+                return head  # type: ignore[return-value]
+            if head is None:
+                head = tail = node
+            else:
+                tail.orelse = [node]  # type: ignore[union-attr]
+                tail = node
+        return head  # type: ignore[return-value]
+    for parent in list(ast.walk(fn)):
+        for field in ('body', 'orelse', 'finalbody'):
+            lst = getattr(parent, field, None)
+            if isinstance(lst, list):
+                for k, st in enumerate(lst):
+                    if st.__class__.__name__ == 'Match':
+                        lst[k] = chain(st)
+        if parent.__class__.__name__ == 'match_case':
+            pass
+    if any(n.__class__.__name__ == 'Match' for n in ast.walk(fn)):      # nested in a case body that was just rewritten
+        desugar_match(fn)
+
+
 class FuncFlow:
     def __init__(self, an: Analyzer, mod: Module, qual: str, fn: ast.AST, depth: int, implicit: T.Sequence[str] = ()):
+        if id(fn) not in an._struct:
+            has = an._imports.get('?match:' + mod.rel)      # cheap pre-filter: does the module spell a match statement at all
+            if has is None:
+                has = an._imports['?match:' + mod.rel] = {'y': 'y'} if re.search(r'^[ \t]*match[ \t(]', mod.src, re.M) else {}
+            if has:
+                desugar_match(fn)
         self.an = an
         self.implicit = [p for p in implicit]
         self.mod = mod
@@ -1035,9 +1109,82 @@ class FuncFlow:
                     ids.add(q)
                     der.add(f'call:{q}')
             der |= self._args_val(e, node, env, look)[1]
+            if isinstance(f.value, ast.Name) and f.value.id not in env:
+                der |= self._typed_accessor(e, node, env, look)
             return frozenset(ids), frozenset(der)
         # call of a call / subscript result
         return frozenset(), vjoin(self._ev(f, node, env, look), self._args_val(e, node, env, look))[1]
+
+    def _param_classes(self, name: str) -> T.List[T.Tuple[Module, ast.ClassDef]]:
+        """Repository classes named by the annotation of parameter `name` (also inside Union / Optional / a string)."""
+        cache = self.an.__dict__.setdefault('_pcls', {})
+        if (id(self.fn), name) in cache:
+            return cache[(id(self.fn), name)]
+        out: T.List[T.Tuple[Module, ast.ClassDef]] = []
+        cache[(id(self.fn), name)] = out
+        a = self.fn.args  # type: ignore[attr-defined]
+        ann = next((x.annotation for x in a.posonlyargs + a.args + a.kwonlyargs if x.arg == name), None)
+        if ann is None or name in self.selfnames:
+            return out
+        if any(not self.defs[d].param for d in range(len(self.defs)) if self.defs[d].name == name):
+            return out          # re-bound in the body: the annotation does not describe every value
+        todo: T.List[ast.AST] = [ann]
+        while todo:
+            x = todo.pop()
+            if isinstance(x, ast.Constant) and isinstance(x.value, str):
+                try:
+                    todo.append(ast.parse(x.value, mode='eval').body)
+                except SyntaxError:
+                    pass
+                continue
+            c = attr_chain(x) if isinstance(x, (ast.Name, ast.Attribute)) else None
+            if c is not None:
+                if c.rsplit('.', 1)[-1][:1].isupper() and not c.startswith(('T.', 'typing.')):
+                    r = self.an.repo.resolve_class(self.mod, c)
+                    if r is not None and not any(r[1] is o[1] for o in out):
+                        out.append(r)
+                continue
+            todo.extend(ch for ch in ast.iter_child_nodes(x) if isinstance(ch, ast.expr))
+        return out
+
+    def _typed_accessor(self, e: ast.Call, node: Node, env: T.Dict[str, Val], look: T.Callable[[str, Node], Val]) -> T.Set[str]:
+        """`p.m(args)` where parameter p is annotated with a repository class whose method m is defined by exactly one class of
+        its module (no override there): the definite labels of m's summary, with m's `self` re-rooted at p.  A one-line
+        accessor (`def iter_x(self): return chain(self.a, self.b)`) is thereby read like the expression it wraps."""
+        f = e.func
+        assert isinstance(f, ast.Attribute) and isinstance(f.value, ast.Name)
+        if self.depth <= 0 or f.value.id not in self.params:
+            return set()
+        out: T.Set[str] = set()
+        peers = self.an.__dict__.setdefault('_peers', {})
+        for m, c in self._param_classes(f.value.id):
+            found = None
+            for m2, c2 in self.an.repo.mro(m, c):
+                st = next((x for x in c2.body if isinstance(x, (ast.FunctionDef, ast.AsyncFunctionDef)) and x.name == f.attr), None)
+                if st is not None:
+                    found = (m2, c2, st)
+                    break
+            if found is None:
+                continue
+            m2, c2, fn = found
+            if not is_method(fn) or any(d.rsplit('.', 1)[-1] in ('staticmethod', 'classmethod', 'property') for d in decorator_names(fn)):
+                continue
+            ndef = sum(1 for k in m2.classes().values() for x in k.body if isinstance(x, (ast.FunctionDef, ast.AsyncFunctionDef)) and x.name == f.attr)
+            if ndef != 1 or fn is self.fn or id(fn) in self.an.stack:
+                continue
+            key = (m2.rel, c2.name)
+            peer = peers.get(key)
+            if peer is None:
+                peer = Analyzer(self.an.repo, m2, c2, 1)
+                peers[key] = peer
+            summ = peer.summary(m2, f'{c2.name}.{fn.name}', fn, 1)
+            bind = bind_args(fn, e, True) if summ is not None else None
+            if summ is None or bind is None:
+                continue
+            bind['self'] = f.value
+            definite = frozenset(x for x in summ.combined[1] if not split_maybe(x)[0])
+            out |= self.map_summary((frozenset(), definite), bind, lambda x: self._ev(x, node, env, look))[1]
+        return out
 
     def _ev_repo_call(self, e: ast.Call, node: Node, env: T.Dict[str, Val], look: T.Callable[[str, Node], Val],
                       index: T.Optional[int], path: str, cal: T.Optional[T.Tuple[str, Module, str, ast.AST, bool]]) -> Val:
@@ -1214,10 +1361,57 @@ class FuncFlow:
                         name = tgts[0].id
                         dd = [d.id for d in self.by_node.get(n.id, []) if d.name == name and d.strong]
                         out.append(Sink(n, name, 'infiles', (inf,), None, f'{name} = {ELEMENT_CLASS}(..., {short(inf, 60)})', dd[0] if dd else None))
+            elif n.kind == 'stmt' and isinstance(n.ast, (ast.Assign, ast.AnnAssign)) and isinstance(n.ast.value, ast.Call):
+                # `name = self.factory(...)` where every return of the resolved factory is a NinjaBuildElement(...) display:
+                # the constructor inputs are the factory's infilenames expression over its parameters, mapped to this call
+                tgts = n.ast.targets if isinstance(n.ast, ast.Assign) else [n.ast.target]
+                if len(tgts) == 1 and isinstance(tgts[0], ast.Name):
+                    pre = self.factory_infiles(n.ast.value, n)
+                    if pre is not None:
+                        name = tgts[0].id
+                        dd = [d.id for d in self.by_node.get(n.id, []) if d.name == name and d.strong]
+                        out.append(Sink(n, name, 'infiles', (), pre, f'{name} = {short(n.ast.value, 70)} -> {ELEMENT_CLASS}(...)', dd[0] if dd else None))
             for c in self.node_calls(n):
                 handle(n, c)
         self._sinks = out
         return out
+
+    def factory_infiles(self, c: ast.Call, n: Node) -> T.Optional[Val]:
+        """`c` calls a resolved repository function whose every return is a direct `NinjaBuildElement(...)` construction
+        (an element factory): the value of its infilenames argument, in the terms of this call site.  None otherwise."""
+        f = c.func
+        if not ((isinstance(f, ast.Attribute) and isinstance(f.value, ast.Name) and f.value.id in self.selfnames)
+                or (isinstance(f, ast.Name) and f.id not in self.local_names)):
+            return None
+        if isinstance(f, ast.Attribute) and self.an.resolve_self(f.attr) is None:
+            return None
+        cal = self._callee(c)
+        if cal is None or cal[3] is self.fn or id(cal[3]) in self.an.stack[:-1] or self.depth <= 0:
+            return None
+        _, m, q, fn, skip = cal
+        rets = [r for r in walk_no_nested(fn) if isinstance(r, ast.Return)]
+        if not rets or any(isinstance(y, (ast.Yield, ast.YieldFrom)) for y in walk_no_nested(fn)):
+            return None
+        infs = []
+        for r in rets:
+            v = r.value
+            if not (isinstance(v, ast.Call) and call_name(v) == ELEMENT_CLASS):
+                return None
+            inf = v.args[3] if len(v.args) > 3 else next((k.value for k in v.keywords if k.arg == 'infilenames'), None)
+            if inf is None or any(isinstance(a, ast.Starred) for a in v.args):
+                return None
+            infs.append((r, inf))
+        bind = bind_args(fn, c, skip)
+        if bind is None:
+            return None
+        try:
+            ff = self.an.flow(m, q, fn, self.depth - 1)
+            vals = [ff.value_at(inf, nd) for nd, v in ff.return_nodes() for r, inf in infs if r.value is v]
+        except Undecided:
+            return None
+        if len(vals) != len(infs):
+            return None
+        return self.map_summary((frozenset(), vjoin(*vals)[1]), bind, lambda x: self.value_at(x, n), keep_self=skip)
 
     def sink_value(self, s: Sink) -> Val:
         if s.pre is not None:
@@ -1646,6 +1840,38 @@ class FuncFlow:
 
     def stores(self, chain: str) -> T.List[T.Tuple[Node, ast.AST, T.Optional[int]]]:
         return list(self.attr_defs.get(chain, []))
+
+    def deep_store_labels(self, chain: str, _depth: int = 2) -> T.Set[str]:
+        """Labels of what the resolved self-callees of this function (to `_depth`) store into `chain`, mapped back to this
+        function's terms (a block of stores extracted into a helper method that takes the object as a parameter)."""
+        out: T.Set[str] = set()
+        if _depth <= 0 or not chain.startswith('self.'):
+            return out
+        leaf = chain.rsplit('.', 1)[-1]
+        for n in self.cfg.nodes:
+            for c in self.node_calls(n):
+                f = c.func
+                if not (isinstance(f, ast.Attribute) and isinstance(f.value, ast.Name) and f.value.id in self.selfnames):
+                    continue
+                if self.an.resolve_self(f.attr) is None:
+                    continue
+                cal = self._callee(c)
+                if cal is None or cal[3] is self.fn or id(cal[3]) in self.an.stack[:-1] or not cal[4] or not self.an.mentions(cal[3], leaf, _depth):
+                    continue
+                b = bind_args(cal[3], c, True)
+                if b is None:
+                    raise Undecided(f'{self.qual}: cannot bind arguments of `{short(c)}`, a helper that mentions {leaf}')
+                ff2 = self.an.flow(cal[1], cal[2], cal[3], max(self.depth - 1, 0))
+                inner: T.Set[str] = set()
+                for nd, v, idx in ff2.stores(chain):
+                    inner |= ff2.origins_at(v, nd, idx)
+                self.an.stack.append(id(cal[3]))
+                try:
+                    inner |= ff2.deep_store_labels(chain, _depth - 1)
+                finally:
+                    self.an.stack.pop()
+                out |= self.map_summary((frozenset(), frozenset(inner)), b, lambda x, n=n: self.value_at(x, n), keep_self=True)[1]
+        return out
 
     def def_nodes(self, name: str) -> T.List[Def]:
         return [d for d in self.defs if d.name == name and not d.param]
